@@ -1043,6 +1043,13 @@ pub fn run_case(case: &J, workdir: &str, out: &mut dyn Write, n: usize) -> Resul
             if *steps >= budget {
                 return Ok(false);
             }
+            // a runaway exchange whose lines keep growing is cut like an exhausted step budget (not quiet)
+            let big = sim.links.iter().any(|l| l.req.iter().chain(l.rsp.iter()).any(|x| x.len() > 100_000))
+                || sim.nodes.iter().any(|n| n.repl_q.iter().any(|x| x.len() > 100_000));
+            if big {
+                sim.emit(json!({"ev":"runaway","limit":100000}));
+                return Ok(false);
+            }
             let nc = if *next_client < nops { Some(*next_client) } else { None };
             let en = sim.enabled(nc, interleave);
             // a TLC-generated schedule names steps by node / link end points
